@@ -275,10 +275,10 @@ def run(chk):
             ("fmt", FMT_GRID, 3 if quick else 4), ("aq", AQ_GRID, None), ("ps", PS_GRID, None)]
     tags_all = {}
     for kind, g, d in plan:
-        failures, tags = grid.run(chk, g, d, GRIDS[kind][1])
-        tags_all[kind] = tags
         wg = _grid(kind)
-        all_f.extend((c, dict(wg.wit(case), kind=kind), e, gg) for (c, case, e, gg) in failures)
+        failures, tags = grid.run(chk, g, d, GRIDS[kind][1],
+                                  shrink=(lambda case, wg=wg, kind=kind: dict(wg.wit(case), kind=kind), simplify, fails_fn))
+        tags_all[kind] = tags
     n = chk.cov["states"]
     chk.add("transitions", n * 6)
     chk.add("evaluations", n)
@@ -292,4 +292,3 @@ def run(chk):
     for c in ("aq.one-item-appended", "aq.item", "aq.read-back", "aq.rest-untouched"):
         chk.clause(PROP + "." + c, checked=an, nontrivial=tags_all["aq"].get("new-key", 0))
     chk.clause(PROP + ".pathsplit", checked=chk.cov["parts"]["pathsplit"]["cases"], nontrivial=tags_all["ps"].get("nonempty", 0))
-    core.reduce_failures(chk, all_f, simplify, fails_fn)
